@@ -7,7 +7,7 @@ use serde_json::{json, Value};
 
 use crate::core::{
     env_seed, explore, install_quiet_panic_hook, load_known, matches_known, minimise, reach_selfcheck,
-    replay, write_evidence, write_replay, ExploreCfg, Failure, KnownFinding, Scenario, Tier,
+    replay, replay_all, write_evidence, write_replay, ExploreCfg, Failure, KnownFinding, Scenario, Tier,
 };
 
 pub struct Args {
@@ -95,18 +95,18 @@ fn known_lines<S: Scenario>(s: &S, known: &[KnownFinding]) -> Vec<String> {
                 std::process::exit(2);
             }
         };
-        match replay(s, &text) {
-            Ok(Some(f)) if matches_known(&f, std::slice::from_ref(k)).is_some() => {
+        match replay_all(s, &text) {
+            Ok(fs) if fs.iter().any(|f| matches_known(f, std::slice::from_ref(k)).is_some()) => {
                 lines.push(format!("KNOWN-FINDING: property={} {} [{}]", s.property(), k.what, k.id));
             }
-            Ok(Some(f)) => {
+            Ok(fs) if !fs.is_empty() => {
                 // The canonical case fails differently now: that is news.
                 println!(
                     "note: canonical case of known finding {} now fails with class {:?}",
-                    k.id, f.class
+                    k.id, fs[0].class
                 );
             }
-            Ok(None) => {
+            Ok(_) => {
                 println!(
                     "note: canonical case of known finding {} no longer fails (fixed?)",
                     k.id
@@ -189,6 +189,12 @@ pub fn run_scenario<S: Scenario>(s: &S, level: &str, quick_runs: u64, thorough_r
     let mut violations = 0u64;
     let mut extra = json!({});
     let mut code = 0;
+    if let Some((run, _case, failure)) = &out.first_failure {
+        if failure.class.starts_with("harness:") {
+            eprintln!("harness error at run {run}: {} {}", failure.class, failure.detail);
+            return 2;
+        }
+    }
     if let Some((run, case, failure)) = &out.first_failure {
         violations = 1;
         let orig_events = s.n_events(case);
